@@ -67,7 +67,18 @@ def c12_1(ctx):
                 got[spec] = "unordered"
                 out.append(ctx.bad(spec, "`%s` hashes the pair in a fixed order without comparing the two hashes; BIP341 hashes the lexicographically smaller one first" % ast.unparse(calls[0]), calls[0], mod, key="order"))
                 continue
-            raise AnalysisError("%s: ordered pair hashing idiom not found" % spec)
+            # the ordering is also decided by evaluation (C12.18: smaller / larger / equal); the syntactic idiom is the fallback
+            cells = _merkle_cells(ctx)
+            mine = [x for x in (cells or []) if x.anchor == spec]
+            if cells is None or not mine:
+                raise AnalysisError("%s: ordered pair hashing idiom not found" % spec)
+            if all(x.status == "ok" for x in mine):
+                got[spec] = "smaller-first"
+                out.append(ctx.ok(spec, "pair order decided by the ordering cells (C12.18); idiom not classified syntactically", fn, mod, key="order"))
+            else:
+                got[spec] = "unordered"
+                out.append(ctx.bad(spec, "pair order: the ordering cells (C12.18) fail", fn, mod, key="order"))
+            continue
         n, order = r[0]
         got[spec] = order
         if order == "smaller-first":
@@ -720,8 +731,117 @@ def c12_17(ctx):
     return [ctx.ok(spec, "accepted lengths are exactly 33 + 32*m, 0 <= m <= 128 (every length 0..300 and the upper bound), with m path hashes in order", fn, mod, key="cb-length")]
 
 
+def _merkle_cells(ctx):
+    """TapBranch.hash and ControlBlock.merkle_root evaluated with the tagged hashes as recording stand-ins, over every ordering of each pair
+    (first smaller, first larger, both equal) along paths of depth 0..3: the result is H_TapBranch(min ‖ max) folded over the path -- equal
+    hashes (a leaf next to an identical copy) included.  None when outside the evaluator's subset"""
+    import hashlib
+    import itertools
+    from sa.cells import Evaluator, Obj, Raised, Undecided
+    if hasattr(ctx, "_c12_merkle"):
+        return ctx._c12_merkle
+    HB = lambda b: hashlib.sha256(b"branch" + bytes(b)).digest()
+    ext = {"hash_tapbranch": HB}
+    out = []
+    try:
+        # ControlBlock.merkle_root
+        spec = "taproot:ControlBlock.merkle_root"
+        mod, fn = rl.get(ctx, spec)
+        leaf_h = hashlib.sha256(b"leaf").digest()
+        hooks = {("TapLeaf", "__init__"): lambda o, *a, **k: None, ("TapLeaf", "hash"): lambda o: leaf_h}
+        verdict, n = None, 0
+        for depth in range(0, 4):
+            for rel in itertools.product(("smaller", "larger", "equal"), repeat=depth):
+                n += 1
+                cur, path = leaf_h, []
+                for r in rel:
+                    h = cur if r == "equal" else next(x for x in (hashlib.sha256(b"%d" % i + cur).digest() for i in range(64)) if (x < cur) == (r == "smaller"))
+                    path.append(h)
+                    cur = HB(min(cur, h) + max(cur, h))
+                me = Obj("taproot", "ControlBlock", {"tapleaf_version": 0xC0, "parity": 0, "internal_pubkey": Obj("pecc", "S256Point", {}), "hashes": path})
+                try:
+                    got = Evaluator(ctx.repo, method_hooks=hooks, externals=ext).call(spec, [Obj("script", "Script", {"commands": []})], self_obj=me)
+                except Raised as x:
+                    verdict = "a path whose hashes are %s than the running hash raises %s" % (list(rel), x.name)
+                    break
+                if got != cur:
+                    verdict = "for a path whose hashes are, level by level, %s than / to the running hash the result is not the fold of H_TapBranch(min ‖ max): %s" % (
+                        list(rel), "a level with two equal hashes is skipped or mis-ordered -- the root differs from the one TapBranch.hash commits to" if "equal" in rel else
+                        "the pair is not hashed smaller-first")
+                    break
+            if verdict:
+                break
+        ctx.count("cells", n)
+        out.append(ctx.bad(spec, verdict, fn, mod, key="merkle-cells:path") if verdict else
+                   ctx.ok(spec, "%d orderings of paths of depth 0..3 (smaller / larger / equal at every level) fold to H_TapBranch(min ‖ max)" % n, fn, mod, key="merkle-cells:path"))
+        # TapBranch.hash
+        spec = "taproot:TapBranch.hash"
+        mod, fn = rl.get(ctx, spec)
+        a, b = hashlib.sha256(b"a").digest(), hashlib.sha256(b"b").digest()
+        lo, hi = min(a, b), max(a, b)
+        verdict = None
+        for l, r, what in ((lo, hi, "left smaller"), (hi, lo, "left larger"), (lo, lo, "both equal")):
+            kid = lambda h: Obj("taproot", "TapLeaf", {"h": h})
+            me = Obj("taproot", "TapBranch", {"left": kid(l), "right": kid(r), "_leaves": None})
+            try:
+                got = Evaluator(ctx.repo, method_hooks={("TapLeaf", "hash"): lambda o: o.attrs["h"]}, externals=ext).call(spec, [], self_obj=me)
+            except Raised as x:
+                verdict = "%s: raises %s" % (what, x.name)
+                break
+            if got != HB(min(l, r) + max(l, r)):
+                verdict = "%s: the branch hash is not H_TapBranch(min ‖ max)" % what
+                break
+        ctx.count("cells", 3)
+        out.append(ctx.bad(spec, verdict, fn, mod, key="merkle-cells:branch") if verdict else
+                   ctx.ok(spec, "left smaller / left larger / both equal: H_TapBranch(min ‖ max)", fn, mod, key="merkle-cells:branch"))
+    except Undecided:
+        out = None
+    ctx._c12_merkle = out
+    return out
+
+
+def c12_18(ctx):
+    """CELLS merkle order: pair ordering of the two tree hashers over smaller / larger / equal"""
+    r = _merkle_cells(ctx)
+    if r is None:
+        mod, fn = rl.get(ctx, "taproot:ControlBlock.merkle_root")
+        return [ctx.err("taproot:ControlBlock.merkle_root", "tree hashers outside the evaluator's subset", fn, mod)]
+    return r
+
+
+def c12_19(ctx):
+    """TapLeaf accepts every script: BIP342 lifts the 10,000-byte script size limit for tapscript, so a leaf (and with it its hash, its
+    control block and the recomputation of the output key in ControlBlock.merkle_root / Witness.tap_leaf) must exist for scripts of any
+    size.  The constructor is evaluated on stand-in scripts whose serialisation has 0 … 400,000 bytes (it may look at the script only
+    through its serialisation and its type)"""
+    from sa.cells import Evaluator, Obj, Raised, Undecided
+    spec = "taproot:TapLeaf.__init__"
+    mod, fn = rl.get(ctx, spec)
+    sizes = (0, 1, 75, 520, 521, 9999, 10000, 10001, 65536, 400000)
+    for size in sizes:
+        body = b"\x51" * size
+        hooks = {("Script", "raw_serialize"): lambda o: body, ("Script", "serialize"): lambda o: bytes([min(size, 252)]) + body, ("Script", "__len__"): lambda o: size}
+        for cls_ in ("Script", "TapScript"):
+            me = Obj("taproot", "TapLeaf", {})
+            script = Obj("taproot" if cls_ == "TapScript" else "script", cls_, {"commands": [0x51] * min(size, 16)})
+            try:
+                Evaluator(ctx.repo, method_hooks=hooks).call(spec, [script, 0xC0], self_obj=me)
+            except Raised as x:
+                return [ctx.bad(spec, "a leaf cannot be created for a %s of %d bytes (%s): BIP342 has no script size limit for tapscript, so that leaf has no hash, no control block and "
+                                      "its spend cannot be verified" % (cls_, size, x.name), fn, mod, key="leaf-any-size")]
+            except Undecided as u:
+                return [ctx.err(spec, "TapLeaf constructor not evaluable: %s" % u, fn, mod)]
+            if me.attrs.get("tap_script") is not script or me.attrs.get("tapleaf_version") != 0xC0:
+                return [ctx.bad(spec, "the leaf does not keep the script / leaf version it was given", fn, mod, key="leaf-any-size")]
+    ctx.count("cells", 2 * len(sizes))
+    return [ctx.ok(spec, "scripts of %s bytes all get a leaf that keeps script and version" % ", ".join(str(x) for x in sizes), fn, mod, key="leaf-any-size")]
+
+
+
 OBLIGATIONS = [
     ("C12.17", "CELLS control block length", c12_17),
+    ("C12.18", "CELLS merkle order", c12_18),
+    ("C12.19", "CELLS leaf of any size", c12_19),
     ("C12.15", "RANGE partition (shared C04.1)", c12_15),
     ("C12.16", "CELLS control block", c12_16),
     ("C12.14", "SHARED", c12_14),
